@@ -73,7 +73,8 @@ Semantics given to it (the trusted part of this translator):
     external named by the chain; a constant of another crate is an external value; for a free
     function the group's "state_param" names the parameter that plays the part of self (a
     `&mut ChannelSlot`, a `&Sender<T>` standing for the queue behind it), and "self_methods" its
-    methods that are stateful externals; the fields named in "cells" are `Cell`s: `self.f.get()`
+    methods that are stateful externals; a local named in "iterators" is an iterator: `x.next()` yields
+    its first item (or None) and leaves the rest in x; the fields named in "cells" are `Cell`s: `self.f.get()`
     reads the field, `self.f.set(e)` rebinds it (a `&self` method of such a group changes self);
   * `as usize` / `as u64` casts are dropped (u64 -> usize is the identity on the 64-bit targets the
     crate is built for here); Vec::with_capacity(n) is the empty vector (capacity is not
@@ -172,6 +173,20 @@ class Parser:
             if tok == "}":
                 self.eat()
                 return ("block", stmts, None)
+            if tok == "fn":
+                # a nested fn item: not part of the value (its calls are external functions)
+                while self.peek() != "{":
+                    self.eat()
+                depth = 0
+                while True:
+                    t2 = self.eat()
+                    if t2 == "{":
+                        depth += 1
+                    elif t2 == "}":
+                        depth -= 1
+                        if depth == 0:
+                            break
+                continue
             if tok == "let":
                 self.eat()
                 pat = self.pattern()
@@ -538,7 +553,15 @@ class Parser:
     def postfix(self):
         e = self.atom()
         while True:
-            if self.peek() == "." and self.peek(1) != "." and self.peek(2) == "(":
+            if self.peek() == "." and self.peek(1) != "." and self.peek(2) == "::" and self.peek(3) == "<":
+                # x.parse::<u16>()
+                self.eat()
+                m = self.eat()
+                self.eat("::"); self.eat("<")
+                ty = self.eat()
+                self.eat(">")
+                e = ("method", e, "%s::<%s>" % (m, ty), self.args())
+            elif self.peek() == "." and self.peek(1) != "." and self.peek(2) == "(":
                 self.eat()
                 m = self.eat()
                 e = ("method", e, m, self.args())
@@ -692,6 +715,7 @@ class Gen:
         self.stcalls = set()
         self.selfmethods = set()
         self.cells = set()
+        self.iterators = set()
         self.ty = " * ".join(["val"] * (len(threaded) + 1))
 
     def fresh(self, base):
@@ -781,8 +805,16 @@ class Gen:
                 return "(v_context %s %s)" % (cstr("Error::" + args[0][1][:-5]), self.e(recv, env))
             if recv[0] == "var" and recv[1] in self.effects:
                 raise Fail("effect call %s.%s used as a value" % (recv[1], m))
-            if m == "clone" and not args:
+            if m in ("clone", "to_string", "as_ref", "as_bytes", "into") and not args:
                 return self.e(recv, env)
+            if m == "unwrap" and not args:
+                return "(v_unwrap %s)" % self.e(recv, env)
+            if m == "with_context" and len(args) == 1 and args[0][0] == "closure":
+                body = args[0][2]
+                sel = body[1] if body[0] in ("struct", "ctor") else None
+                if not sel or not sel.endswith("Snafu"):
+                    raise Fail("with_context closure")
+                return "(v_context %s %s)" % (cstr("Error::" + sel[:-5]), self.e(recv, env))
             if m == "get" and not args and recv[0] == "field" and recv[1] == ("var", "self") and recv[2] in self.cells:
                 return self.e(recv, env)
             if m == "len" and not args:
@@ -815,6 +847,9 @@ class Gen:
         x = c[1]
         if x[0] == "method" and x[2] == "is_empty" and not x[3]:
             return "(v_is_empty %s)" % self.e(x[1], env)
+        if x[0] == "method" and x[2] in ("is_some", "is_none") and not x[3]:
+            r = "(v_is_some %s)" % self.e(x[1], env)
+            return r if x[2] == "is_some" else "(negb %s)" % r
         if x[0] in ("field", "var", "method"):
             return "(v_is_true %s)" % self.e(x, env)
         raise Fail("condition %r" % (c,))
@@ -878,6 +913,8 @@ class Gen:
             if self.stateful_chain(x) is not None and not self.stateful_recv(recv):
                 return True
             if recv[0] == "var" and recv[1] in self.handles:
+                return True
+            if recv[0] == "var" and recv[1] in self.iterators and m == "next" and not args:
                 return True
             if m in ("map_err", "unwrap_or_else"):
                 return True
@@ -975,6 +1012,13 @@ class Gen:
                     n, v, cstr("self.%s" % m), "; ".join(self.e(a, env) for a in args), env["self"], k(env2, v))
             if m == "context" and len(args) == 1 and args[0][0] == "ctor" and args[0][1].endswith("Snafu"):
                 return self.ev(recv, env, lambda env2, v: k(env2, "(v_context %s %s)" % (cstr("Error::" + args[0][1][:-5]), v)))
+            if recv[0] == "var" and recv[1] in self.iterators and m == "next" and not args:
+                # Iterator::next on a local: its first item (or None), the rest stays in the local
+                x0 = recv[1]
+                v, n = self.fresh("item"), self.fresh(x0)
+                env2 = dict(env)
+                env2[x0] = n
+                return "let %s := v_next %s in\nlet %s := v_rest %s in\n%s" % (v, env[x0], n, env[x0], k(env2, v))
             if recv[0] == "var" and recv[1] in self.handles:
                 # a handle obtained from self (a HashMap entry): the operation goes to self
                 n, v = self.fresh("self"), self.fresh("v")
@@ -999,6 +1043,14 @@ class Gen:
                 env2["self"] = n
                 return "let '(%s, %s) := ext_st %s [%s] %s in\n%s" % (
                     n, v, cstr("%s.%s" % (recv[2], m)), "; ".join(self.e(a, env) for a in args), env["self"], k(env2, v))
+        if kind == "method" and self.effectful(x[1]) and not any(self.effectful(a) for a in x[3] if a[0] != "closure"):
+            # a pure method of an effectful receiver: the receiver first
+            def apply(env2, val):
+                tmp = self.fresh("recv")
+                env3 = dict(env2)
+                env3[tmp] = tmp
+                return "let %s := %s in\n%s" % (tmp, val, self.ev(("method", ("var", tmp), x[2], x[3]), env3, k))
+            return self.ev(x[1], env, apply)
         raise Fail("effectful expression in an unsupported position: %r" % (x,))
 
     def ret(self, v, env):
@@ -1092,6 +1144,13 @@ class Gen:
             return code + cont(env)
         if kind == "ifstmt":
             _, c, body = s
+            if c[0] == "boolexpr" and c[1][0] == "method" and c[1][2] in ("is_some", "is_none") and self.effectful(c[1][1]):
+                # the operand is evaluated first (it may advance an iterator)
+                def test(env2, val):
+                    r = "(v_is_some %s)" % val
+                    r = r if c[1][2] == "is_some" else "(negb %s)" % r
+                    return "(if %s then\n%s\nelse\n%s)" % (r, self.block(body, env2, lambda env3, _v: cont(env3)), cont(env2))
+                return self.ev(c[1][1], env, test)
             return "(if %s then\n%s\nelse\n%s)" % (self.cond(c, env), self.block(body, env, lambda env2, _v: cont(env2)), cont(env))
         if kind == "ifelsestmt":
             _, c, body, els = s
@@ -1239,7 +1298,7 @@ class Gen:
         raise Fail("pattern %r" % (p,))
 
 
-def translate(src, name, calls, effects, chans=(), mutcalls=None, handles=(), fuelcalls=None, stcalls=(), state_param=None, selfmethods=(), cells=()):
+def translate(src, name, calls, effects, chans=(), mutcalls=None, handles=(), fuelcalls=None, stcalls=(), state_param=None, selfmethods=(), cells=(), iterators=()):
     fn_only = name.split(".")[-1]
     toks = tokenize(find_fn(src, name))
     if state_param and state_param.get(name):
@@ -1266,6 +1325,7 @@ def translate(src, name, calls, effects, chans=(), mutcalls=None, handles=(), fu
     g.stcalls = set(stcalls)
     g.selfmethods = set(selfmethods)
     g.cells = set(cells)
+    g.iterators = set(iterators)
     env = {x: x for x in params}
     text = g.block(body, env, lambda env2, v: g.ret(v, env2))
     ty = " * ".join(["val"] * (len(threaded) + 1))
@@ -1313,6 +1373,7 @@ if __name__ == "__main__":
     state_param = spec.get("state_param", {})
     selfmethods = spec.get("self_methods", [])
     cells = spec.get("cells", [])
+    iterators = spec.get("iterators", [])
     mutcalls = set()
     fuelcalls = set()
     header = HEADER % ", ".join(sorted(set(p for p, _ in fns)))
@@ -1325,7 +1386,7 @@ if __name__ == "__main__":
         # a call may only go to a function translated before it
         avail = {m: c for m, c in calls.items() if c in done}
         try:
-            out.append("(* ---- %s :: %s ---- *)\n" % (path, n) + translate(open(path).read(), n, avail, effects, chans, mutcalls, handles, fuelcalls, stcalls, state_param, selfmethods, cells))
+            out.append("(* ---- %s :: %s ---- *)\n" % (path, n) + translate(open(path).read(), n, avail, effects, chans, mutcalls, handles, fuelcalls, stcalls, state_param, selfmethods, cells, iterators))
             done.add("gen_" + n.replace(".", "_"))
         except (Fail, OSError) as ex:
             ok = False
